@@ -88,12 +88,17 @@ def call_ret(contract):
     return _call_rets[contract]
 
 
+_call_excs = {}
+
+
 def call_raised(contract):
-    raise KeyError('call_raised is a ghost of the symbolic executor')
+    """class name of what the last call of the stubbed callee raised (None: it returned / was not called)"""
+    e = _call_excs.get(contract)
+    return None if e is None else ('IOError' if e[0] == 'OSError' else e[0])
 
 
 def call_errno(contract):
-    raise KeyError('call_errno is a ghost of the symbolic executor')
+    return _call_excs[contract][1]
 
 
 def entries_none_from(table, lo):
